@@ -804,6 +804,23 @@ func c02Enumerate(quick bool, visit func(label string, decls gd) bool) {
 			}
 		}
 	}
+	// Level G (1b): the same reference text evaluated at a cursor and, inside an object anchored where that
+	// reference anchors, at that node itself (r -> r/a, and r/a -> r/a/a): before and after the nested object
+	// in evaluation order, for every kind of body whose value depends on the cursor
+	for _, body := range []gd{{"const": "k"}, {"external": "e1"}, {"array": []interface{}{gd{"xpath": "a"}, gd{"const": "|"}}}, {"array": []interface{}{gd{"xpath": "."}}},
+		{"array": []interface{}{gd{"xpath": "*"}}}, {"object": gd{"t": gd{"xpath": "a"}}}} {
+		for _, refXP := range []string{"a", "*", "a[1]", "d"} {
+			site := gd{"xpath": refXP, "template": "T"}
+			for _, anchor := range []string{refXP, "a[1]", "d"} {
+				if !visit("G:reference-at-a-cursor-and-at-the-node-it-anchors-on", gd{"FINAL_OUTPUT": gd{"object": gd{
+					"a1": site, "o": gd{"xpath": anchor, "object": gd{"deeper": site, "oo": gd{"xpath": anchor, "object": gd{"deepest": site}}}}, "z1": site}}, "T": body}) ||
+					!visit("G:reference-at-a-cursor-and-at-the-node-it-anchors-on", gd{"FINAL_OUTPUT": gd{"object": gd{
+						"l": gd{"array": []interface{}{site, gd{"xpath": anchor, "object": gd{"deeper": site}}, site}}}}, "T": body}) {
+					return
+				}
+			}
+		}
+	}
 	for _, inner := range []gd{
 		{"custom_func": gd{"name": "testfn", "args": []interface{}{gd{"const": "boom"}}}},
 		{"custom_func": gd{"name": "upper", "args": []interface{}{gd{"const": "a"}, gd{"const": "b"}}}},
@@ -996,6 +1013,11 @@ func init() {
 								}
 							}
 							c.Count("full_path_cases", 1)
+							// (a result with no JSON form - NaN, Inf - is found when the Transform encodes it: that
+							// record fails, like any other record that fails)
+							if strings.HasPrefix(outcome, "MARSHAL-ERROR") {
+								outcome = "FAIL"
+							}
 							if !bytes.Equal([]byte(got), []byte(outcome)) {
 								c.Violation("full-path-differs-from-parse-node:"+label, fmt.Sprintf("Transform.Read gave %s, ParseNode/reference gave %s\n%s", got, outcome, c02Schema(decls, true)), cs, nil)
 							}
@@ -1024,6 +1046,9 @@ func init() {
 								default:
 									got = r.Steps[i].String()
 								}
+							}
+							if strings.HasPrefix(want[i], "MARSHAL-ERROR") {
+								want[i] = "FAIL"
 							}
 							if got != want[i] {
 								c.Violation("stream-path-differs-from-record-alone:"+label, fmt.Sprintf("record %d of the stream %s\nTransform.Read gave %s, the record alone gives %s\n%s", i, doc, got, want[i], c02SchemaAt(decls, true, "/S/r")), c02Case{Decls: decls, Record: xmlRecs[i%len(xmlRecs)]}, nil)
